@@ -85,6 +85,12 @@ def build_env(cfg):
     env = prov.get_simulation_environment()
     if cfg["p"] != env.passive_skill_level:
         env = env.model_copy(update={"passive_skill_level": cfg["p"]})     # the minimal provider always says 0
+    if cfg.get("skill_levels_override"):
+        # per-skill levels (what SimulationEnvironment.skill_levels / the providers' *_skill_levels overrides allow): the axes above
+        # give every skill of a kind the same level, the theorems (C16_exclude_hexa_iff) speak about EVERY level map
+        lv = dict(env.skill_levels)
+        lv.update(cfg["skill_levels_override"])
+        env = env.model_copy(update={"skill_levels": lv})
     return env
 
 
